@@ -39,7 +39,7 @@ const (
 )
 
 func genC28(t *rapid.T) c28Case {
-	c := c28Case{KeepAliveMs: rapid.SampledFrom([]int{0, 0, 2000, 5000}).Draw(t, "keepalive"), Retries: uint(rapid.IntRange(0, 2).Draw(t, "retries")), SilentFrom: -1}
+	c := c28Case{KeepAliveMs: rapid.SampledFrom([]int{0, 0, 1000, 2000, 5000}).Draw(t, "keepalive"), Retries: uint(rapid.IntRange(0, 2).Draw(t, "retries")), SilentFrom: -1}
 	nb := rapid.IntRange(0, 12).Draw(t, "nbehaviours")
 	for i := 0; i < nb; i++ {
 		c.Behaviours = append(c.Behaviours, rapid.SampledFrom([]string{"ok", "ok", "ok", "silent", "silent", "wrongtype", "wrongid", "unsolicited", "disconnect", "garbage", "dupack", "nagrec"}).Draw(t, "behaviour"))
@@ -326,7 +326,7 @@ end:
 func TestC28(t *testing.T) {
 	vf.Check(t, vf.Prop[c28Case]{
 		ID: "C28", Name: "calls-return", Bubble: true, DeadlockIsViolation: true, MarkCurrent: true,
-		Rule: "real client (KeepAlive 0 / 2 s / 5 s, RetryCount 0-2) against an adversarial scripted gateway whose treatment of each successive client datagram is drawn (answer properly / stay silent / wrong message ID / wrong packet types / proper answer preceded by unsolicited PINGRESP+REGISTER+PUBLISH / DISCONNECT / undecodable datagram / duplicated answer / PUBREC repeated every 300 ms for 12 s with the PUBCOMP never sent), optionally silent for good from datagram k on; 1-6 operations: every API call (Connect, Register, Subscribe[Predefined], Unsubscribe, Publish[Predefined] QoS 0-3, Ping, Sleep, Disconnect), optionally two calls started at the same instant, time advances around the keep-alive ticks, unsolicited gateway packets; ended by Close, by a gateway DISCONNECT or not at all. Non-trivial = the gateway misbehaves at least once; concurrent calls are labelled; distinct by case.",
+		Rule: "real client (KeepAlive 0 / 1 s / 2 s / 5 s with RetryDelay 1 s, RetryCount 0-2) against an adversarial scripted gateway whose treatment of each successive client datagram is drawn (answer properly / stay silent / wrong message ID / wrong packet types / proper answer preceded by unsolicited PINGRESP+REGISTER+PUBLISH / DISCONNECT / undecodable datagram / duplicated answer / PUBREC repeated every 300 ms for 12 s with the PUBCOMP never sent), optionally silent for good from datagram k on; 1-6 operations: every API call (Connect, Register, Subscribe[Predefined], Unsubscribe, Publish[Predefined] QoS 0-3, Ping, Sleep, Disconnect), optionally two calls started at the same instant, time advances around the keep-alive ticks, unsolicited gateway packets; ended by Close, by a gateway DISCONNECT or not at all. Non-trivial = the gateway misbehaves at least once; concurrent calls are labelled; distinct by case.",
 		Assumptions: []string{"bounds on the virtual clock: Connect (RetryCount+1) x ConnectTimeout; Register/Subscribe/Unsubscribe/Ping/Disconnect/Close and Publish QoS 1 (RetryCount+1) x RetryDelay; Publish QoS 2 twice that; Sleep adds the sleep duration and the library's fixed 1-minute PINGRESP wait; +2 s (1 s receive poll, same-instant scheduling)",
 			"a hang is observed as 'not returned after 10 x the bound'; goroutines still blocked when the case ends are reported by the bubble itself"},
 		Gen: genC28,
